@@ -1164,6 +1164,46 @@ impl<'a, 'b> Iterator for FindTextIter<'a, 'b> {
         }
     }
 }
+/// Finds the first occurrence of the (already lowercased) fragment in the lowercased form of the text,
+/// and returns the begin and end of the match as utf-8 byte offsets in the *original* text.
+/// Lowercasing may change the byte length of a character (e.g. U+0130, U+212A, U+1E9E), so offsets
+/// in the lowercased text can not be used on the original text directly. Matches that do not begin and end
+/// on a character boundary of the original text (i.e. inside the expansion of a single character) are skipped.
+fn find_nocase_bytes(text: &str, fragment: &str) -> Option<(usize, usize)> {
+    let lowered = text.to_lowercase();
+    //maps each character boundary in the lowercased text to the corresponding boundary in the original text
+    let mut bounds: Vec<(usize, usize)> = Vec::with_capacity(text.len() + 1);
+    let mut loweredpos = 0;
+    for (bytepos, c) in text.char_indices() {
+        bounds.push((loweredpos, bytepos));
+        loweredpos += c.to_lowercase().map(|x| x.len_utf8()).sum::<usize>();
+    }
+    bounds.push((loweredpos, text.len()));
+    if loweredpos != lowered.len() {
+        //should never happen: per-character lowercasing has the same lengths as string lowercasing
+        return None;
+    }
+    let resolve = |pos: usize| -> Option<usize> {
+        bounds
+            .binary_search_by_key(&pos, |(l, _)| *l)
+            .ok()
+            .map(|i| bounds[i].1)
+    };
+    let mut searchfrom = 0;
+    while searchfrom <= lowered.len() {
+        let found = searchfrom + lowered[searchfrom..].find(fragment)?;
+        if let (Some(begin), Some(end)) = (resolve(found), resolve(found + fragment.len())) {
+            return Some((begin, end));
+        }
+        //not on a character boundary of the original text, try further
+        searchfrom = found + 1;
+        while searchfrom < lowered.len() && !lowered.is_char_boundary(searchfrom) {
+            searchfrom += 1;
+        }
+    }
+    None
+}
+
 /// This iterator is produced by [`FindText::find_text_nocase()`] and searches a text for a single fragment, without regard for casing.
 /// It has more overhead than the exact (case sensitive) variant [`FindTextIter`].
 pub struct FindNoCaseTextIter<'a> {
@@ -1189,9 +1229,9 @@ impl<'a> Iterator for FindNoCaseTextIter<'a> {
                     let beginbytepos = resource
                         .subslice_utf8_offset(text)
                         .expect("bytepos must be valid");
-                    let text = text.to_lowercase();
-                    if let Some(foundbytepos) = text.find(self.fragment.as_str()) {
-                        let endbytepos = foundbytepos + self.fragment.len(); //MAYBE TODO: possible issue if uppercase and lowercase variants have different byte length!
+                    if let Some((foundbytepos, endbytepos)) =
+                        find_nocase_bytes(text, self.fragment.as_str())
+                    {
                         let newbegin = resource
                             .utf8byte_to_charpos(beginbytepos + foundbytepos)
                             .expect("utf-8 byte must resolve to valid charpos");
